@@ -50,13 +50,15 @@ def mini_streets(min_bet: Any, hole: int = 2) -> tuple:
 
 def h_showdown(ctx: Any, n: int, depth: int, hilo: bool = False, boards: int = 1,
                mode: str = 'T', shape: str = 'free', deck: str = 'identity',
-               levels: int = 0, trim: bool = True, ante: int = 0) -> None:
+               levels: int = 0, trim: bool = True, ante: int = 0, part: Any = None,
+               lo_levels: int = 0) -> None:
     C.set_deck_order(deck)
     levels = levels or n
     types: tuple = (make_symhand(ctx, 'H', False, levels),)
     if hilo:
-        types += (make_symhand(ctx, 'L', True, levels, allow_none=True),)
+        types += (make_symhand(ctx, 'L', True, lo_levels or levels, allow_none=True),)
     stacks = tuple(ctx.int(f's{i}', 1, MAXCHIP) for i in range(n))
+    ctx.constrain(part)
     cfg = dict(n=n, stacks=stacks, blinds=(1, 2), min_bet=2, antes=ante,
                ante_trimming_status=trim,
                mode=Mode.TOURNAMENT if mode == 'T' else Mode.CASH_GAME,
@@ -167,17 +169,44 @@ def h_showdown(ctx: Any, n: int, depth: int, hilo: bool = False, boards: int = 1
 
 
 def jobs(tier: str, seed: int) -> list[dict]:
+    from engine.partition import weak_orders, tri
     deck = 'identity' if not seed else f'rot{seed % 52}'
     out = []
     mc = ['showdown']
-    if tier == 'quick':
-        out.append(dict(name='allin/n3/hi', fn='h_showdown',
-                        params=dict(n=3, depth=0, shape='allin', deck=deck),
-                        budget_s=280, must_cover=mc + ['side-pot']))
-        out.append(dict(name='allin/n3/hilo', fn='h_showdown',
-                        params=dict(n=3, depth=0, shape='allin', hilo=True, deck=deck, levels=2),
-                        budget_s=280, must_cover=mc + ['side-pot']))
-        out.append(dict(name='free/n2/hilo/d2', fn='h_showdown',
-                        params=dict(n=2, depth=2, hilo=True, deck=deck),
-                        budget_s=280, must_cover=mc))
+    names3 = ['s0', 's1', 's2']
+    B = 400 if tier == 'quick' else 1500
+    for k, part in enumerate(weak_orders(names3)):
+        out.append(dict(name=f'allin/n3/hi/w{k}', fn='h_showdown',
+                        params=dict(n=3, depth=0, shape='allin', deck=deck, part=part),
+                        budget_s=B, must_cover=mc))
+        out.append(dict(name=f'allin/n3/hilo/w{k}', fn='h_showdown',
+                        params=dict(n=3, depth=0, shape='allin', hilo=True, deck=deck,
+                                    levels=2, lo_levels=1 if tier == 'quick' else 2, part=part),
+                        budget_s=B, must_cover=mc))
+    for k in range(3):
+        for k1 in (range(3) if k == 2 else [None]):
+            pre = {'d0_k': k}
+            if k1 is not None:
+                pre['d1_k'] = k1
+            for pi, part in enumerate([[c] for c in tri('s0', 's1')] if (k, k1) == (2, 2) else [None]):
+                out.append(dict(name=f'free/n2/hilo/d2/k{k}' + ('' if k1 is None else f'{k1}')
+                                + ('' if part is None else f'/p{pi}'),
+                                fn='h_showdown',
+                                params=dict(n=2, depth=2, hilo=True, deck=deck, _preset=pre, part=part),
+                                budget_s=B, must_cover=mc if k else []))
+    if tier == 'thorough':
+        for k, part in enumerate(weak_orders(names3)):
+            out.append(dict(name=f'allin/n3/hi/2boards/w{k}', fn='h_showdown',
+                            params=dict(n=3, depth=0, shape='allin', deck=deck, part=part,
+                                        boards=2, levels=2),
+                            budget_s=B, must_cover=mc))
+            out.append(dict(name=f'allin/n3/hi/cash/w{k}', fn='h_showdown',
+                            params=dict(n=3, depth=0, shape='allin', deck=deck, part=part, mode='C'),
+                            budget_s=B, must_cover=mc))
+        for k in range(3):
+            for k1 in range(3):
+                out.append(dict(name=f'free/n3/hi/d3/k{k}{k1}', fn='h_showdown',
+                                params=dict(n=3, depth=3, deck=deck, levels=2,
+                                            _preset={'d0_k': k, 'd1_k': k1}),
+                                budget_s=B, must_cover=[]))
     return out
